@@ -82,7 +82,7 @@ static int		rec_freed, early_ret;
 static int		in_call, in_worker, n_sched;
 static int		cbcnt[NTHR], cb_ran_on[NTHR], cb_bad_arg, cb_overlap;
 static unsigned		cb_stamp[NTHR], clk;
-static int		done_cnt, done_ran_on, done_bad_arg;
+static int		done_cnt, done_ran_on, done_bad_arg, done_after_refused_write;
 static size_t		done_sent, done_err;
 static unsigned		done_stamp;
 
@@ -133,6 +133,7 @@ static void
 cb_done(tpt_p tpt, size_t send_msg_cnt, size_t error_cnt, void *udata) {
 	done_cnt ++;
 	done_ran_on = v_cur;
+	done_after_refused_write = v_last_write_failed;	/* direct-call fallback of the completion message */
 	done_sent = send_msg_cnt;
 	done_err = error_cnt;
 	done_stamp = ++ clk;
@@ -324,7 +325,11 @@ harness(void) {
 	}
 	if (1 == done_cnt) {
 		V_ASSERT(0 == done_bad_arg, "completion callback gets the origin thread and the caller's argument");
+#ifdef KF_DONE_CB_FOREIGN_THREAD	/* known finding: only the fallback after a refused queue write is exempted */
+		if (!done_after_refused_write)
+#endif
 		V_ASSERT(done_ran_on == CALLER, "completion callback runs on the originating thread");
+		if (done_ran_on != CALLER) V_WITNESS("known-finding path: completion ran on a foreign thread after a refused write");
 		V_ASSERT(done_sent == (size_t)sum, "completion callback reports the number of callbacks run");
 		V_ASSERT(done_sent + done_err == (size_t)ntarget, "completion callback: sent + failed == number targeted");
 		for (t = 0; t < NTHR; t ++) {
